@@ -171,21 +171,21 @@ impl DailyLogsUpdate {
             ",
         )?;
 
-        let mut rows = daily_log_stmt.query([])?;
+        // read the whole window before the loop: the loop updates the table the SELECT scans, and a SELECT
+        // that is stepped while its table changes sees those changes (rows returned twice, rows skipped)
+        type LogRow = (Uid, String, i64, bool, Option<Vec<u8>>, Option<Vec<u8>>);
+        let window: Vec<LogRow> = daily_log_stmt
+            .query_map([], |row| {
+                Ok((row.get(0)?, row.get(1)?, row.get(2)?, row.get(3)?, row.get(4)?, row.get(5)?))
+            })?
+            .collect::<Result<Vec<LogRow>, rusqlite::Error>>()?;
 
         let mut previous_room: Uid = [0; 16];
         let mut previous_entity: String = "-".to_string();
         let mut previous_hash: Option<Vec<u8>> = None;
         let mut previous_history: Option<Vec<u8>> = None;
 
-        while let Some(row) = rows.next()? {
-            let room: Uid = row.get(0)?;
-            let entity: String = row.get(1)?;
-            let date: i64 = row.get(2)?;
-            let need_recompute: bool = row.get(3)?;
-
-            let daily_hash: Option<Vec<u8>> = row.get(4)?;
-            let history_hash: Option<Vec<u8>> = row.get(5)?;
+        for (room, entity, date, need_recompute, daily_hash, history_hash) in window {
 
             if !need_recompute {
                 if previous_room.eq(&room) && previous_entity.eq(&entity) {
